@@ -49,6 +49,16 @@ class ReprEngine(RefsEngine):
         r.is_text = True
         return r
 
+    def eval_Compare(self, e, cx):
+        # == / != between two TEXTS (results of str() / repr() / f-strings) is plain string comparison
+        if len(e.ops) == 1 and isinstance(e.ops[0], (ast.Eq, ast.NotEq)):
+            a = self.eval(e.left, cx)
+            b = self.eval(e.comparators[0], cx)
+            if getattr(a, "is_text", False) and getattr(b, "is_text", False):
+                r = a.t == b.t
+                return PyBool(r if isinstance(e.ops[0], ast.Eq) else z3.Not(r))
+        return super().eval_Compare(e, cx)
+
     def builtin_str(self, e, cx):
         v = self.eval(e.args[0], cx)
         r = PyObj(py_str(self.as_v(v)))
